@@ -28,7 +28,8 @@ TCeaOk   == Ev("cea.ok") /\ inq # <<>> /\ Head(inq) = "ok" /\ ~meta /\ HandleCEA
 TCeaFail == Ev("cea.fail") /\ inq # <<>> /\ Head(inq) = "fail" /\ ~meta /\ HandleCEA
 TCeaIgn  == Ev("cea.ignore") /\ meta /\ HandleCEA
 TApp     == Ev("app") /\ AppAnswer
-TNext == TReset \/ TSend \/ TWFail \/ TTimer \/ TTimeout \/ TOk \/ TFail \/ TPeer \/ TCeaOk \/ TCeaFail \/ TCeaIgn \/ TApp \/ Silent
+TEof     == Ev("peer.eof") /\ PeerEOF
+TNext == TReset \/ TSend \/ TWFail \/ TTimer \/ TTimeout \/ TOk \/ TFail \/ TPeer \/ TCeaOk \/ TCeaFail \/ TCeaIgn \/ TApp \/ TEof \/ Silent
 TInit == Init /\ l = 1 /\ TLCSet(1, 0)
 NotDone == l <= Len(Trace)
 HW == TLCSet(1, IF TLCGet(1) < l THEN l ELSE TLCGet(1))
